@@ -277,17 +277,17 @@ class World (object):
       except Stop:
         raise
       except self.rv.ReventError as e:
-        raised = e
+        raised = repr(e)          # (not the exception object: its traceback would keep handler owners alive)
         if etype != "E3":
           self.fail("raise-rejected", "raising declared event %s raised ReventError: %s" % (etype, e))
       except ValueError as e:
-        raised = e
+        raised = repr(e)          # (not the exception object: its traceback would keep handler owners alive)
         if form.startswith("noerr"):
           self.fail("exception-propagated", "raiseEventNoErrors propagated a handler's exception")
         if not any(x[0] == "exc" for x in d.events):
           self.fail("spurious-exception", "raiseEvent raised %r but no handler failed" % (e,))
       except Exception as e:
-        raised = e
+        raised = repr(e)          # (not the exception object: its traceback would keep handler owners alive)
         self.fail("internal-error", "raise of %s (%s form) failed inside the library: %s: %s" % (etype, form, type(e).__name__, e))
       else:
         if etype == "E3" and (form in ("inst", "noerr") or d.snapshot):
